@@ -270,7 +270,8 @@ theorem wwriteAll_wp (w : Writer) (ds : List Bytes) {fs : FS} (hc : w.cache = ca
 exists, answer. -/
 theorem closeTail_wp {fs : FS} (tmp cpath : Path) (sri : Integrity) (e : EK)
     (hq : ContentValid cfg cache fs) (Post : Res Integrity → FS → Prop)
-    (hok : ∀ fs', Post (Except.ok sri) fs') (herr : ∀ fs', Post (Except.error (Err.io e)) fs') :
+    (hok : ∀ fs', fs'.existsFollow cpath = true → Post (Except.ok sri) fs')
+    (herr : ∀ fs', Post (Except.error (Err.io e)) fs') :
     wpD env (ContentValid cfg cache) Post
       (Prog.bind (dropTmp tmp) (fun _ => .sys (.existsF cpath) (fun r =>
         match r with
@@ -281,17 +282,25 @@ theorem closeTail_wp {fs : FS} (tmp cpath : Path) (sri : Integrity) (e : EK)
   intro _ fs1 hv1
   apply wpD_safe cfg env cache hv1
   · intro q hq'; simp [Call.fileTargets] at hq'
-  intro fs2 r2 _ hv2
-  split
-  · exact wpD_done cfg env cache hv2 (hok _)
-  · exact wpD_done cfg env cache hv2 (herr _)
+  intro fs2 r2 hs2 hv2
+  cases hs2 with
+  | fail e' short => exact wpD_done cfg env cache hv2 (herr _)
+  | ok =>
+    simp only [exec]
+    split
+    · rename_i heq
+      have : fs1.existsFollow cpath = true := by
+        injection heq
+      exact wpD_done cfg env cache hv2 (hok _ this)
+    · exact wpD_done cfg env cache hv2 (herr _)
 
 /-- Closing a writer publishes the temp file under the address of what was hashed — and at every
 kill point, under every fault, the content store stays valid. -/
 theorem wclose_wp (w : Writer) {fs : FS} (hc : w.cache = cache)
     (hq : ContentValid cfg cache fs) (hi : WInv w fs) :
     wpD env (ContentValid cfg cache)
-      (fun r _ => ∀ sri, r = Except.ok sri → sri = Sri.compute cfg.H w.algo w.hashed)
+      (fun r fs' => ∀ sri, r = Except.ok sri → sri = Sri.compute cfg.H w.algo w.hashed ∧
+        ∃ cpath, contentPath cache sri = some cpath ∧ fs'.existsFollow cpath = true)
       (wclose cfg w) fs := by
   obtain ⟨f, hf, htake, hlen0, hlenS⟩ := hi.file
   have hna := hi.tmp_not_addr cache hc
@@ -307,10 +316,14 @@ theorem wclose_wp (w : Writer) {fs : FS} (hc : w.cache = cache)
     exact wpD_done cfg env cache hv1 (fun sri h => by cases h)
   · simp only [hlt, if_false]
     have hl4 : 4 ≤ (Bytes.hex (cfg.H w.algo w.hashed)).length := Nat.le_of_not_lt hlt
+    have hcp : contentPath cache (Sri.compute cfg.H w.algo w.hashed) =
+        some (addrPath cache w.algo (Bytes.hex (cfg.H w.algo w.hashed))) := by
+      rw [contentPath_compute]; simp [hlt]
     -- after the cut the temp file holds exactly what was hashed
     have publish : ∀ fsx, ContentValid cfg cache fsx → fsx.get w.tmp = some (.file w.hashed) →
         wpD env (ContentValid cfg cache)
-          (fun r _ => ∀ sri, r = Except.ok sri → sri = Sri.compute cfg.H w.algo w.hashed)
+          (fun r fs' => ∀ sri, r = Except.ok sri → sri = Sri.compute cfg.H w.algo w.hashed ∧
+        ∃ cpath, contentPath cache sri = some cpath ∧ fs'.existsFollow cpath = true)
           (.sys (.mkdirP (FS.parent (addrPath cache w.algo (Bytes.hex (cfg.H w.algo w.hashed)))))
             (fun r => match r with
               | .err e => Prog.bind (dropTmp w.tmp) (fun _ => .done (Except.error (Err.io e)))
@@ -334,10 +347,15 @@ theorem wclose_wp (w : Writer) {fs : FS} (hc : w.cache = cache)
       · refine wpD_call hv1 (fun t => by simpa [execTorn] using hv1) ?_
         intro fs2 r2 hs2
         rcases step_rename hg1 hs2 with ⟨⟨e, rfl⟩, rfl⟩ | ⟨rfl, rfl⟩
-        · exact closeTail_wp cfg env cache _ _ _ e hv1 _ (fun _ sri h => by cases h; rfl)
+        · exact closeTail_wp cfg env cache _ _ _ e hv1 _
+            (fun fsy hex sri h => by
+              cases h
+              refine ⟨rfl, _, hcp, hex⟩)
             (fun _ sri h => by cases h)
-        · exact wpD_done cfg env cache (publish_contentValid w.tmp w.algo w.hashed hv1)
-            (fun sri h => by cases h; rfl)
+        · refine wpD_done cfg env cache (publish_contentValid w.tmp w.algo w.hashed hv1) ?_
+          intro sri h; cases h
+          refine ⟨rfl, _, hcp, ?_⟩
+          simp [FS.existsFollow, FS.resolve, FS.resolveFuel]
     simp only [bind_eq, pure_eq, call, bind_sys, bind_done]
     split
     · rename_i n hm
@@ -428,34 +446,24 @@ theorem insert_wp (key : Bytes) (o : WriteOpts) {fs : FS} (hq : ContentValid cfg
 theorem wcommit_wp (w : Writer) {fs : FS} (hc : w.cache = cache)
     (hq : ContentValid cfg cache fs) (hi : WInv w fs) :
     wpD env (ContentValid cfg cache) (fun _ _ => True) (wcommit cfg w) fs := by
-  unfold wcommit
+  unfold wcommit wcommitCheck
   simp only [bind_eq, pure_eq]
+  apply wpD_bind
   apply wpD_bind
   refine wpD_mono ?_ (wpD_withQ (wclose_wp cfg env cache w hc hq hi))
   intro r fs1 ⟨hv1, _⟩
   have hidx : ∀ wsri recorded, wpD env (ContentValid cfg cache) (fun _ _ => True)
-      (wcommit.index cfg w wsri recorded) fs1 := by
+      (wcommitIndex cfg w wsri recorded) fs1 := by
     intro wsri recorded
-    unfold wcommit.index
+    unfold wcommitIndex
     split
     · rw [hc]; exact insert_wp cfg env cache _ _ hv1
     · exact wpD_done cfg env cache hv1 trivial
-  have hfin : ∀ wsri recorded, wpD env (ContentValid cfg cache) (fun _ _ => True)
-      (wcommit.finishCommit cfg w wsri recorded) fs1 := by
-    intro wsri recorded
-    unfold wcommit.finishCommit
-    split
-    · split
-      · exact wpD_done cfg env cache hv1 trivial
-      · exact hidx _ _
-    · exact hidx _ _
   split
-  · exact wpD_done cfg env cache hv1 trivial
+  · exact wpD_done cfg env cache hv1 (wpD_done cfg env cache hv1 trivial)
   · split
-    · split
-      · exact wpD_done cfg env cache hv1 trivial
-      · exact hfin _ _
-    · exact hfin _ _
+    · exact wpD_done cfg env cache hv1 (wpD_done cfg env cache hv1 trivial)
+    · exact wpD_done cfg env cache hv1 (hidx _ _)
 
 /-- A whole streamed write: open with any options, feed any chunks, commit (or clean up after a
 failed chunk). -/
